@@ -144,7 +144,9 @@ func diskPluginGoroutines() (ticker, updating int) {
 	for _, g := range strings.Split(diskAllStacks(), "\n\n") {
 		if strings.Contains(g, "initCRLUpdateTicker.func1") {
 			ticker++
-		} else if strings.Contains(g, "CRLRevocationChecker).updateCRLs") {
+		}
+		// (the ticker goroutine runs its first pass inline: it counts as both)
+		if strings.Contains(g, "CRLRevocationChecker).updateCRLs") {
 			updating++
 		}
 	}
